@@ -14,8 +14,8 @@
   `LeftEnd`/`RightEnd` markers, watermarks, `FlushBatch`es in between); `lefts es` / `rights es` are the two
   sides' data elements in arrival order; `farFree es` = one iteration's worth of input. The hypothesis
   `(stateAfter .init es).panicked = false` excludes the documented `panic!` of zip.rs:112 (a timestamped
-  element paired with a plain one); `zip_plain_never_panics` / `zip_timestamped_never_panics` show it is
-  implied by "all plain" / "all timestamped".
+  element paired with a plain one); `zip_plain_never_panics` shows it is implied by "no timestamped
+  element".
 -/
 import NoirVerif.Lemmas.Zip
 import NoirVerif.Lemmas.Route
@@ -65,10 +65,6 @@ theorem zip_length_min (es : List (Elem (Bin α β))) (hf : farFree es = true)
     (dataOf (run State.init es)).length = min (lefts es).length (rights es).length := by
   have := congrArg List.length (zip_pairs es hf hp)
   simpa [List.length_zip] using this
-
-/-- the payloads of the two sides, in arrival order -/
-def leftVals (es : List (Elem (Bin α β))) : List α := (lefts es).filterMap Elem.value
-def rightVals (es : List (Elem (Bin α β))) : List β := (rights es).filterMap Elem.value
 
 /-- **C09 (payloads).** The payloads of the emitted pairs are `List.zip` of the two sides' payloads. -/
 theorem zip_pairs_values (es : List (Elem (Bin α β))) (hf : farFree es = true)
